@@ -26,9 +26,17 @@ ENC_BASIC = {0x00: 'absptr', 0x01: 'uleb128', 0x02: 'udata2', 0x03: 'udata4', 0x
 KIND_BY_OP = {'undefined': 'UNDEFINED', 'same_value': 'SAME_VALUE'}
 
 
+class Unencodable(Exception):
+    """the drawn pointer value cannot be represented in the drawn encoding at the offset the layout gave it
+    (only known after layout); the case is dropped and counted"""
+
+
 def enc_ptr(le, A, enc, v):
     """basic encoding of value v (already made relative by the caller) -> bytes, fixed width for LEB"""
     b = enc & 0x0f
+    lo, hi = ptr_range(A, enc)
+    if not lo <= v <= hi:
+        raise Unencodable('%#x in encoding %#x' % (v, enc))
     if b == 0x00:
         return D.u(le, A, v)
     if b in (0x02, 0x03, 0x04):
@@ -217,7 +225,11 @@ def exp_instr(op):
 
 def run_case(ctx, case):
     le, A, eh = case['le'], case['addr_size'], case['kind'] == 'eh_frame'
-    data, exp = build_section(case)
+    try:
+        data, exp = build_section(case)
+    except Unencodable:
+        ctx.count('gen.unencodable-pointer')
+        return
     name = '.eh_frame' if eh else '.debug_frame'
     try:
         di = D.make_dwarfinfo({name: data}, le, A, addresses={name: case.get('sec_addr', 0)})
